@@ -16,6 +16,11 @@ R3  part-suffix agreement (T-ROLE): every first-/second-part quantity is
     computed from inputs of its own part, each output is looked up with its own
     index array (altitude indices index the altitude grid, ...), and halves are
     concatenated first-then-second.
+R8  every cell index is `np.searchsorted(<own axis>, coordinates) − 1`, directly
+    or through one helper that passes axis and coordinates on unaltered; no
+    spacing arithmetic anywhere in the module.
+R9  the public entry points pass way-points, times, altitudes and variables to
+    the gridding as received (no rebinding on the way).
 R4  the same searchsorted-minus-one cell rule is used for the per-point and the
     per-segment index helpers, on the matching grid axis.
 """
@@ -41,6 +46,111 @@ def axis_of(name: str) -> str | None:
         if any(w in t for w in words):
             hits.append(a)
     return hits[0] if len(hits) == 1 else None
+
+
+LOOKUPS = [
+    # (function, target local or None for the return value, axis attribute)
+    ('Gridder._trajectory_intersection_points_and_cells_horizontal', 'lat_grid_indices', 'self.grid_latitudes'),
+    ('Gridder._trajectory_intersection_points_and_cells_horizontal', 'lon_grid_indices', 'self.grid_longitudes'),
+    ('Gridder._trajectory_intersection_points_and_cells_horizontal', 'midpoint_lat_indices', 'self.grid_latitudes'),
+    ('Gridder._trajectory_intersection_points_and_cells_horizontal', 'midpoint_lon_indices', 'self.grid_longitudes'),
+    ('Gridder._trajectory_time_grid_indices', None, 'self.grid_times'),
+    ('Gridder._trajectory_altitude_grid_indices', None, 'self.grid_altitudes'),
+    ('Gridder._trajectory_segment_time_grid_indices', None, 'self.grid_times'),
+    ('Gridder._trajectory_segment_altitude_grid_indices', None, 'self.grid_altitudes'),
+    ('Gridder._polygon_touched_cells', 'min_lat_idx', 'self.grid_latitudes'),
+    ('Gridder._polygon_touched_cells', 'max_lat_idx', 'self.grid_latitudes'),
+    ('Gridder._polygon_touched_cells', 'min_lon_idx', 'self.grid_longitudes'),
+    ('Gridder._polygon_touched_cells', 'max_lon_idx', 'self.grid_longitudes'),
+]
+
+
+def _strip_index_wrappers(e):
+    """peel `.astype(int)`, `[:-1]`, and `- 1`; returns (core, number of `- 1` peeled) or (None, 0)"""
+    minus = 0
+    for _ in range(6):
+        if isinstance(e, ast.Call) and isinstance(e.func, ast.Attribute) and e.func.attr == 'astype' and len(e.args) == 1 \
+                and norm(e.args[0]) in ('int', 'np.int64', 'np.intp'):
+            e = e.func.value
+        elif isinstance(e, ast.Subscript) and isinstance(e.slice, ast.Slice):
+            e = e.value
+        elif isinstance(e, ast.BinOp) and isinstance(e.op, ast.Sub) and norm(e.right) == '1':
+            e, minus = e.left, minus + 1
+        else:
+            break
+    return e, minus
+
+
+def rule_lookup(ctx, m, rule):
+    """Every cell index is obtained by searching the grid axis itself: `np.searchsorted(axis, coordinates) − 1`
+    (left side) on the axis of the index's own role, with the coordinates as given.  That is the only form that is
+    right for every monotone axis; index arithmetic from a spacing, a cast of the coordinates, or another side
+    changes the cell of some point on some grid."""
+    from ..resolve import resolve_call
+    prog = ctx.prog
+    n = 0
+    for fq, target, axis in LOOKUPS:
+        fi = m.func(fq)
+        if target is None:
+            vals = [r.value for r in walk_no_nested(fi.node) if isinstance(r, ast.Return) and r.value is not None]
+        else:
+            vals = [st.value for t, st, how in stores_to(fi.node) if isinstance(t, ast.Name) and t.id == target
+                    and how == 'assign' and not (isinstance(st.value, ast.Call) and call_name(st.value) == 'np.where')]
+        if not vals:
+            ctx.undecided(rule, fi, target or 'return', 'cell look-up not found')
+        for v in vals:
+            n += 1
+            core, minus = _strip_index_wrappers(v)
+            why = None
+            if isinstance(core, ast.Call) and call_name(core) == 'np.searchsorted':
+                call, sub = core, None
+            elif isinstance(core, ast.Call) and resolve_call(prog, fi, core) is not None:
+                # one level of helper: its return must be the same form over its own first two parameters, unaltered
+                h = resolve_call(prog, fi, core)
+                rets = [r.value for r in walk_no_nested(h.node) if isinstance(r, ast.Return) and r.value is not None]
+                ps = [p for p in h.params if p not in ('self', 'cls')]
+                call, sub = None, h
+                if len(rets) == 1 and len(ps) >= 2:
+                    hc, hm = _strip_index_wrappers(rets[0])
+                    minus += hm
+                    rebinds = [norm(st) for t, st, how in stores_to(h.node) if isinstance(t, ast.Name) and t.id in ps[:2]]
+                    if isinstance(hc, ast.Call) and call_name(hc) == 'np.searchsorted' and len(hc.args) >= 2 \
+                            and [norm(a) for a in hc.args[:2]] == ps[:2] and not rebinds:
+                        call = ast.Call(func=hc.func, args=list(core.args[:2]), keywords=hc.keywords)
+                    elif rebinds:
+                        why = (f'{h.name} alters what it searches for before searching (`{rebinds[0][:60]}`): a value just above a '
+                               'grid line can land on or below it and is attributed to the cell below')
+                if call is None and why is None:
+                    why = (f'{h.name}(…) does not search the axis: `{norm(rets[0])[:70] if rets else "?"}` is index arithmetic that '
+                           'is only right for one kind of axis (evenly spaced), so on other grids the start/end cells are wrong, '
+                           'intersection points are generated for grid lines the segment never reaches and shares no longer sum to 1')
+            else:
+                call = None
+                why = (f'`{norm(v)[:70]}` is not a search of the grid axis: index arithmetic is only right for evenly spaced axes')
+            if call is not None:
+                side = next((k.value for k in call.keywords if k.arg == 'side'), None)
+                okc = len(call.args) >= 2 and norm(call.args[0]) == axis and minus == 1 and \
+                    (side is None or (isinstance(side, ast.Constant) and side.value == 'left')) and \
+                    not any(k.arg == 'sorter' for k in call.keywords)
+                if not okc:
+                    why = (f'look-up is `{norm(v)[:70]}`: expected searchsorted({axis}, coordinates) − 1 on the left side '
+                           f'(axis {norm(call.args[0]) if call.args else "?"}, {minus} × “− 1”)')
+            ok = why is None
+            ctx.ob(rule, fi, f'{target or "return"} = {norm(v)[:60]}', ok,
+                   f'searchsorted({axis}, coordinates) − 1' if ok else why, line=v.lineno)
+    ctx.floor(rule + '/lookups', n, 12, 'cell look-ups')
+    # no spacing arithmetic anywhere in the gridding module (zero expected; positive control embedded)
+    def spacing(x):
+        return isinstance(x, ast.BinOp) and isinstance(x.op, ast.Sub) and isinstance(x.left, ast.Subscript) \
+            and isinstance(x.right, ast.Subscript) and norm(x.left.value) == norm(x.right.value) \
+            and isinstance(x.left.slice, ast.Constant) and isinstance(x.right.slice, ast.Constant)
+    ctx.control(rule, spacing(ast.parse('axis[1] - axis[0]').body[0].value), 'embedded `axis[1] - axis[0]` is recognised as a spacing')
+    for fi in m.functions.values():
+        for x in ast.walk(fi.node):
+            if spacing(x):
+                ctx.ob(rule, fi, f'spacing `{norm(x)}`', False,
+                       'a single spacing is taken from two elements of an axis: whatever is computed from it assumes an evenly '
+                       'spaced axis, which the gridder does not require', line=x.lineno)
 
 
 def run(ctx):
@@ -229,6 +339,11 @@ def run(ctx):
                     ctx.ob('C05-R3', f2, f'{t.id} = {norm(x)}', ok, f'{ga} grid indexed by {ga} indices' if ok else
                            f'{ta} output looks up the {ga} grid with {ia} indices', line=x.lineno)
     ctx.floor('C05-R3/axes', nax, 12, 'grid look-ups')
+    rule_lookup(ctx, m, 'C05-R8')
+    from .c04 import rule_forwarding
+    rule_forwarding(ctx, m, 'C05-R9', ('lats', 'lons', 'altitudes', 'times', 'state_variables', 'integrated_variables'),
+                    'the cells are then attributed from altered coordinates (a wrap into [-π, π) moves a way-point on 180°E to '
+                    '180°W and sends a track that never crosses the antimeridian through the split path)')
     ctx.note('NOT decided: lat/lon cell attribution, path order of pieces, equality of shares with length shares '
              '(grid-line intersection ordering and midpoint look-up are real-valued geometry)')
     ctx.assumptions += ['np.searchsorted(grid, x) − 1 is the index of the last grid value ≤ x (left side)']
